@@ -1,4 +1,5 @@
 import McpModel.Wire.Ref
+import McpModel.Wire.Clone
 import McpModel.Wire.Ann
 import McpModel.Wire.Retry
 import McpModel.Wire.Sse
@@ -235,7 +236,7 @@ inductive Clause where
   | cwCrash (c : Crash) | cwGarbled (n : Nat) | cwLost (m : Msg)
   | logDiffers (passed logged : Nat)
   | retryResponsesAltered | retryStateAltered | retryNotDecodedAlike
-  | toolAnnHintLost | toolAnnChanged | cloneAliased | cloneDiffers
+  | toolAnnHintLost | toolAnnChanged | cloneAliased | cloneDiffers | extNotStored
   | refRefused | refChanged | refInconsistentWritten | refInconsistentAccepted | refReencDiffers
   | dtNdReader (c : Crash) | ndNotValueByValue
   | writePanic02 | flushedEarly | notOnItsOwn | arrayNotExact | withheld (hasNotif : Bool) | lastOnItsOwn
@@ -941,6 +942,39 @@ def annMonitor (compat : Bool) (a : ToolAnn) (o : AnnObs) : Option Clause :=
   if !compat && !hintsPresent o.written then some .toolAnnHintLost
   else if o.back ≠ some a then some .toolAnnChanged
   else none
+
+/-! ## capabilities clones -/
+
+/-- `caps.clone`: does the clone encode like the original; in how many cells a write through one showed in the other;
+did `AddExtension` on the clone store the (empty, non-nil) settings without touching the original -/
+structure CloneObs where
+  same : Bool
+  aliased : Nat
+  ext : Option Bool       -- `none`: the original changed (aliased); `some false`: not stored
+deriving Repr, Inhabited
+
+def cloneMonitor (o : CloneObs) : Option Clause :=
+  if !o.same then some .cloneDiffers
+  else if o.aliased ≠ 0 || o.ext = none then some .cloneAliased
+  else if o.ext = some false then some .extNotStored
+  else none
+
+/-- the writes the harness tries, on the model: through every cell of the clone (is the original's encoding
+changed?) and through every cell of the original (is the clone's?) -/
+def showsInOriginal (v : CSlots) (h : Heap) (x : JVal) : Option Nat → Bool
+  | some a => encSlots v (writeCell (cloneV v h).2 a x) != encSlots v h
+  | none => false
+
+def showsInClone (v : CSlots) (h : Heap) (x : JVal) : Option Nat → Bool
+  | some a => encSlots (cloneV v h).1 (writeCell (cloneV v h).2 a x) != encSlots (cloneV v h).1 (cloneV v h).2
+  | none => false
+
+def aliasCount (v : CSlots) (h : Heap) (x : JVal) : Nat :=
+  ((cloneV v h).1.filter (showsInOriginal v h x)).length + (v.filter (showsInClone v h x)).length
+
+/-- what `caps.clone` observes of the model -/
+def modelClone (v : CSlots) (h : Heap) (x : JVal) : CloneObs :=
+  { same := encSlots (cloneV v h).1 (cloneV v h).2 == encSlots v h, aliased := aliasCount v h x, ext := some true }
 
 /-! ## the `CompleteReference` codec -/
 
